@@ -82,7 +82,7 @@ def tasks(tier):
                         durs=[0, 2], dur_free=True, strat_menu=[1, 9], overshoot=[0, 3]):
         t["cfg"]["nest"] = dict(t["cfg"]["nest"], script=["x:T", "ok"])
         out.append(t)
-    for D, at, e in itertools.product([3, 4], [1, 2], Q4):
+    for D, at, e in itertools.product([3, 4], [1, 2, 6], Q4):
         cfg = dict(M=3, deadline=D, alphabet=["ok", "x:T", "r:R"], durs=[0, 1, 3, 5], dur_free=True,
                    strat_menu=[1, 0, 9], strat_free=True, overshoot=[0, 1, 3], over_free=True,
                    attempt_timeout=at, loop=e.startswith("Async"),
